@@ -140,6 +140,22 @@ def scratch_root() -> str:
     raise HarnessError("no writable scratch root")
 
 
+def sweep_stale_scratch() -> int:
+    """Remove per-run scratch directories (dsim.<pid>, dsim-sens.<pid>) whose owning process no
+    longer exists, e.g. after a check was killed.  Returns how many were removed."""
+    import re
+    import shutil
+
+    root = scratch_root()
+    n = 0
+    for name in os.listdir(root):
+        m = re.fullmatch(r"dsim(?:-sens)?\.(\d+)", name)
+        if m and not os.path.exists(f"/proc/{m.group(1)}"):
+            shutil.rmtree(os.path.join(root, name), ignore_errors=True)
+            n += 1
+    return n
+
+
 def merge_counts(dst: dict[str, int], src: dict[str, int]) -> None:
     for k, v in src.items():
         dst[k] = dst.get(k, 0) + v
